@@ -279,7 +279,11 @@ HSETS = [
     [("EMA", {"period": 2, "timeframe": "T2", "timeframe_fill": True}), ("SMA", {"period": 2, "timeframe": "T2"})],
     [("OBV", {}), ("RSI", {"period": 2, "timeframe": "T2"}), ("SMA", {"period": 2, "timeframe": "T4", "timeframe_fill": True})],
     [("MACD", {"fast_period": 2, "slow_period": 3, "signal_period": 2, "timeframe": "T4"}), ("TR", {"timeframe": "T2"})],
+    # Hexitals with their own (finer) timeframe: the members' candles are seeded from the default manager at construction
+    [("SMA", {"period": 2}), ("EMA", {"period": 2, "timeframe": "T4"})],
+    [("RSI", {"period": 2, "timeframe": "T2"}), ("OBV", {"timeframe": "T4"}), ("TR", {})],
 ]
+HSET_HKW = {4: {"timeframe": "T1"}, 5: {"timeframe": "T1"}}
 
 
 def _hx_view(hx):
@@ -295,7 +299,7 @@ def _hx_members(hi):
 def hset_run(hi, hfill, k0, raw, comp):
     """-> (batch view, snapshots along the schedule)"""
     from hexital import Hexital
-    hkw = {"timeframe_fill": True} if hfill else {}
+    hkw = dict(HSET_HKW.get(hi, {}), **({"timeframe_fill": True} if hfill else {}))
     hb = Hexital("b", fresh(raw), _hx_members(hi), **hkw)
     hb.calculate()
     hx = Hexital("s", fresh(raw[:k0]), _hx_members(hi), **hkw)
@@ -356,7 +360,7 @@ def explore_hset(item):
                     rep.violation(f"C02|hexital-set-repaint|hset{hi}", dict(case, comp=comp, oracle="hset-repaint", detail=bad))
                 elif len(comp) >= 2:
                     rep.add("nontrivial", ("hset", hi, hfill, k0, gaps, comp))
-    rep.sample({"hexital_members": HSETS[hi], "hexital_fill": hfill, "history_at_construction": k0, "raw": raw})
+    rep.sample({"hexital_members": HSETS[hi], "hexital_kw": HSET_HKW.get(hi, {}), "hexital_fill": hfill, "history_at_construction": k0, "raw": raw})
     return rep
 
 
